@@ -665,6 +665,8 @@ def sync_jobs(
         exclude = []
     elif not isinstance(exclude, list):
         exclude = [exclude]
+    else:
+        exclude = list(exclude)  # the caller's list must not be modified
     exclude.append(src.FN_STATE_POINT)
     if doc_sync != DocSync.COPY:
         exclude.append(src.FN_DOCUMENT)
